@@ -56,6 +56,9 @@ func verif_assume(b bool) {}
 
 // verif_rangeidx stands for the number of completed iterations of the enclosing range loop (contracts only).
 func verif_rangeidx() int { return 0 }
+
+// verif_arg stands for the i-th argument of the call a call-site assertion is attached to (contracts only).
+func verif_arg[T any](i int) T { var z T; return z }
 EOV
 } > $D/verif_spec.go
 { echo "$HDR"; echo "package $P"; echo; echo "// Machine-checked contracts for /verif (comment-only; see /verif/DESIGN.md §2.2)."; } > $D/verif_contracts.go
